@@ -13,7 +13,7 @@ from vf.core import Result, lib
 ID = "C05"
 TITLE = "Forecast scaling law, bounded fitting and parameter round-trip"
 LEVEL = "exploration"
-BUDGET = {"quick": 2400, "thorough": 800000}
+BUDGET = {"quick": 6000, "thorough": 800000}
 SHRINK = {"quick": False, "thorough": True}
 RULE = (
     "Hypothesis draws M in 10^[-1,12], tau in 10^[-3,5], a recovery curve (IdealReservoir and real-gas "
